@@ -100,11 +100,20 @@ def run(ck):
     # aggregate(): all results of its argument
     agg = r.function('ioos_qc.qartod', 'aggregate')
     R = collections.namedtuple('R', 'results')
+    CR0 = r.interp.module('ioos_qc.results').globals['CollectedResult']
     for combo in itertools.product([1, 3, 4, 9, 'masked'], repeat=3):
-        out = r.run(agg, [[R(mkvec([v])) for v in combo]])
-        label = f'aggregate({list(combo)})'
-        ok = out.kind == 'return' and concrete(out.value) == [([str(expected(combo))], False)]
-        ck.ob('C04.aggregate', label, ok, key='aggregate:all-results', what=f'{label} does not equal the roll-up of all results')
+        # plain records, CollectedResults with distinct labels, and CollectedResults that all carry the same stream / package / test label
+        # (two passes over one stream): every vector counts, whatever its label
+        for kind in ('records', 'collected', 'collected-same-label'):
+            if kind == 'records':
+                items = [R(mkvec([v])) for v in combo]
+            else:
+                items = [r.interp.instantiate(CR0, [], dict(stream_id='s' if kind.endswith('label') else f's{i}', package='qartod', test='t', function=None,
+                                                            results=mkvec([v])), None) for i, v in enumerate(combo)]
+            out = r.run(agg, [items])
+            label = f'aggregate({list(combo)} as {kind})'
+            ok = out.kind == 'return' and concrete(out.value) == [([str(expected(combo))], False)]
+            ck.ob('C04.aggregate', label, ok, key=f'aggregate:all-results:{kind}', what=f'{label} does not equal the roll-up of all results')
     ck.ob('C04.aggregate', 'aggregate flag attribute', getattr(agg, 'attrs', {}).get('aggregate') is True, key='aggregate:attr',
           what='aggregate() lost its aggregate=True marker')
 
